@@ -72,7 +72,7 @@ CLAIM = {
 }
 
 EXTRA_MODULES = ['FemtoVerif.Proofs.TreeLemmas']
-KEYS = ('cols', 'cfg', 'utrench', 'dirname', 'mutate', 'same_writer', 'reassign')
+KEYS = ('cols', 'cfg', 'utrench', 'dirname', 'mutate', 'same_writer', 'reassign', 'keep_files', 'chdir')
 
 
 # ------------------------------------------------------------------------------------------------------------------
@@ -145,12 +145,13 @@ def gen_case(rng, directed=None):
     cfg['output_digits'] = rng.choice([6, 6, 6, 6, 4, 3])   # a reduced print resolution coarsens x / y / z words, never the depth bookkeeping
     cfg['export_dir'] = rng.choice(['', 'out', 'a/b'])
     cfg['filename'] = 'trenches.pgm'
+    same_writer = rng.random() < 0.5
     reassign = None
-    if rng.random() < 0.15:
+    if rng.random() < (0.5 if (mutate is not None and same_writer) else 0.15):
         # the writer is re-referenced after it was built: origin and mirror settings reassigned on the object before the export
         reassign = {'shift_origin': [round(rng.uniform(-1, 1), 3), round(rng.uniform(-1, 1), 3)], 'flip_x': not cfg.get('flip_x', False)}
-    return {'cols': cols, 'cfg': cfg, 'utrench': utrench, 'dirname': rng.choice(['TRENCH', 'TR', 'u-tr']), 'mutate': mutate, 'same_writer': rng.random() < 0.5,
-            'reassign': reassign}
+    return {'cols': cols, 'cfg': cfg, 'utrench': utrench, 'dirname': rng.choice(['TRENCH', 'TR', 'u-tr']), 'mutate': mutate, 'same_writer': same_writer,
+            'reassign': reassign, 'keep_files': rng.random() < 0.5, 'chdir': mutate is None and rng.random() < 0.15}
 
 
 def build_guide(g):
@@ -267,14 +268,24 @@ def check_case(ctx, case):
     files = []
     with gcommon.Scratch() as d, core.quiet():
         try:
+            base = d
+            if case.get('chdir'):
+                # the writer is built in one directory and exports from another: the whole tree belongs where the writer was built
+                (d / 'setup').mkdir()
+                (d / 'run').mkdir()
+                os.chdir(d / 'setup')
+                base = d / 'setup'
             W = (UTrenchWriter if case['utrench'] else TrenchWriter)(cols, dirname=case['dirname'], **cfg)
+            if case.get('chdir'):
+                os.chdir(d / 'run')
             if case.get('mutate') is not None:
                 # the columns are exported once (with the time estimate), then their depth parameters are changed and they are
                 # exported again: the second tree is the one judged, against the new parameters
                 W.pgm(verbose=True)
                 for r, _, fs in os.walk(d):
                     for f in fs:
-                        os.unlink(os.path.join(r, f))
+                        if not case.get('keep_files'):      # (half of the histories export again into the folder as it is)
+                            os.unlink(os.path.join(r, f))
                 for tc, mu in zip(cols, case['mutate']):
                     for k, v in mu.items():
                         setattr(tc, k, v)
@@ -302,7 +313,8 @@ def check_case(ctx, case):
             ctx.seen({'stream': 'tree', **info}, False)
             ctx.fail('spec', 'export', info, f'pgm() raised {type(e).__name__}: {e}', 'export:raised')
             return None
-        root = d / (cfg.get('export_dir') or '') / case['dirname']
+        root = base / (cfg.get('export_dir') or '') / case['dirname']
+        stray = [str(p_.relative_to(d)) for p_ in d.rglob('*') if p_.is_file() and root not in p_.parents]
         for r, _, fs in os.walk(root):
             for f in sorted(fs):
                 p = pathlib.Path(r) / f
@@ -406,6 +418,10 @@ def check_case(ctx, case):
         ctx.count('tree.columns', str(len(cols)))
         ctx.count('tree.empty_columns', str(sum(1 for c_ in cols if len(list(c_)) == 0)))
         ctx.count('tree.kind', 'U' if case['utrench'] else 'plain')
+        ctx.count('tree.cwd', 'changed-between-construction-and-export' if case.get('chdir') else 'same')
+        if stray:
+            ctx.fail('spec', 'tree', {**info, 'stray': stray[:5]}, f'files of the exported tree outside its folder: {stray[:5]}', 'tree:stray-files')
+            return
         ctx.count('tree.writer_settings', 'reassigned-after-construction' if case.get('reassign') else 'as-constructed')
         ctx.count('tree.history', ('second-export' + ('/same-writer' if case.get('same_writer') else '/new-writer')) if case.get('mutate') is not None else 'fresh')
         ctx.count('tree.blocks', str(min(nb, 6)))
